@@ -427,6 +427,89 @@ def check_C20(c):
     c.rep.assumptions = ["the specialised engines are exercised on their own element type only", "refusal accepted where the default engine's check accepts it"]
 
 
+GEN_FILES = ("internal/execution/", "array_getset.go", "dense_maskcmp_methods.go", "dense_generated.go", "native/",
+             "internal/storage/getset.go", "dense_compat.go")
+
+
+def function_coverage(covdir):
+    """function coverage of the generated sources, from a binary built with -cover"""
+    p = subprocess.run(["go", "tool", "covdata", "func", "-i=" + covdir], env=GOENV, capture_output=True, text=True, cwd=HARNESS)
+    if p.returncode != 0:
+        raise Infra("go tool covdata failed: " + p.stderr[-2000:])
+    groups, unreached = {}, []
+    for line in p.stdout.splitlines():
+        m = re.match(r"(\S+?):(\d+):\s+(\S+)\s+([\d.]+)%", line)
+        if not m:
+            continue
+        path, fn, pct = m.group(1), m.group(3), float(m.group(4))
+        if not path.startswith("gorgonia.org/tensor/"):
+            continue
+        rel = path.split("gorgonia.org/tensor/", 1)[1]
+        g = next((x for x in GEN_FILES if rel.startswith(x)), None)
+        if g is None or rel.endswith("_test.go"):
+            continue
+        tot, cov = groups.get(g, (0, 0))
+        groups[g] = (tot + 1, cov + (1 if pct > 0 else 0))
+        if pct == 0:
+            unreached.append(rel + ":" + fn)
+    return groups, unreached
+
+
+def check_C17(c):
+    q = c.quick
+    covdir = c.scr.path("cover")
+    os.makedirs(covdir, exist_ok=True)
+    binary = build_harness(c.scr, tags=("verif",), cover=True)
+    env = dict(GOENV, GOCOVERDIR=covdir)
+
+    def rp(name, cases, **kw):
+        kw.setdefault("seed", c.seed)
+        stats, divs, samples = run_replay(c.scr, binary, cases, cfgname="default", env=env, **kw)
+        c.rep.add_replay(name, stats, divs, samples)
+        log("replay %s: %d executions, %d divergences" % (name, stats.get("execs", 0), len(divs)))
+
+    lays = {S("C"), S("T"), S("Col")}
+    for fam in ("arith", "cmp", "unary", "reduce"):
+        cases = c.tlc("MC_interp", "interp-" + fam, dict(ShapeId=S("q" if q else "t"), Lays=lays, Family=S(fam)), ["TypeOK", "Emit"])
+        rp("interp-" + fam, cases, dtypes="numeric", pals="interp", extra=["-entries", "func,method"])
+    # breadth for the measured coverage: masking predicates, typed getters/setters, native conversions, Apply/unary maths
+    cases = c.tlc("MC_mask", "cov-pred", mask_consts(True, "pred"), ["TypeOK", "Emit"])
+    rp("cov-pred", cases, dtypes="all", pals="ident")
+    k = {"MaxRank": 2, "MaxDim": 2, "MaxDim4": 2, "Ctors": {S("C")}, "Rich": False}
+    cases = c.tlc("MC_addr", "cov-getset", k, ["TypeOK", "Emit"])
+    rp("cov-getset", cases, dtypes="all", pals="ident")
+    W = {S(x) for x in ("Memset", "Zero")}
+    C = {S(x) for x in ("Native", "Mat64", "Clone")}
+    k = dict(MinRank=1, MaxRank=3, MaxDim=2, MaxDimHi=2, HiRank=3, Ctors={S("C")}, ViewDepth=0, RichPalette=False, Writes=W, Copies=C)
+    cases = c.tlc("MC_views", "cov-native", k, ["TypeOK", "Emit"])
+    rp("cov-native", cases, dtypes="all", pals="ident")
+    k = elem_consts(True, ["Unary", "Arith", "Cmp"], laya=("C", "Col"), layb=("C", "Col"), modes=("safe", "unsafe", "reuse", "incr"), layd=("C",),
+                    mismatch=False, MinRank=1, MaxRank=1, MaxDim=3)
+    cases = c.tlc("MC_elem", "cov-elem", k, ["TypeOK", "Emit"])
+    rp("cov-elem", cases, dtypes="all", pals="ident,signed", extra=["-ops", "all", "-entries", "func,method"])
+    k = dict(MinRank=1, MaxRank=2, MaxDim=3, MaxDimHi=2, HiRank=3, LayA={S("C"), S("Col")}, Kinds={S("Reduce"), S("Arg")})
+    cases = c.tlc("MC_reduce", "cov-reduce", k, ["TypeOK", "Emit"])
+    rp("cov-reduce", cases, dtypes="all", pals="ident,signed", extra=["-ops", "all", "-entries", "func,method"])
+    groups, unreached = function_coverage(covdir)
+    tot = sum(t for t, _ in groups.values())
+    cov = sum(v for _, v in groups.values())
+    c.rep.extra["coverage"] = {
+        "function_coverage_of_generated_sources": {g: {"functions": t, "reached": v} for g, (t, v) in sorted(groups.items())},
+        "functions_total": tot, "functions_reached": cov,
+        "unreached_functions_sample": unreached[:60], "unreached_count": len(unreached)}
+    log("function coverage of the generated sources: %d / %d" % (cov, tot))
+    if tot == 0 or cov * 100 < tot * 40:
+        raise Infra("function coverage of the generated sources is implausibly low (%d/%d): the measurement is broken" % (cov, tot))
+    c.rep.rule = ("TLC enumerates the generated operation families with CONCRETE operators x the kernel variants {vector-vector, vector-scalar, "
+                  "scalar-vector, incr, iterator, iterator-incr, same-type} and evaluates every expected element ITSELF over the integers "
+                  "(spec/Interp.tla, the one type-generic definition); the replayer runs each behaviour for every numeric element type that "
+                  "represents the operands and results exactly and demands these integers after conversion - hence any two element types "
+                  "agree. The replay binary is built with -cover over gorgonia.org/tensor/... and the function coverage of the generated "
+                  "sources reached by this run is measured and reported")
+    c.rep.assumptions = ["inexact division and functions without an integer meaning (sqrt, exp, ...) are covered per type under C12 only",
+                         "coverage is reported, and only used to reject a broken measurement (<40%)"]
+
+
 def mask_consts(q, mode):
     suffix = "-q" if q else "-t"
     if mode == "iter":
@@ -485,7 +568,7 @@ def check_C05(c):
     c.rep.assumptions = ["Coord() after exhaustion is not specified and not compared", "the masked multi-iterator's validity stepping is outside the statement"]
 
 
-CHECKS = {"C01": check_C01, "C02": check_C02, "C03": check_C03, "C04": check_C04, "C13": check_C13, "C06": check_C06, "C07": check_C07, "C11": check_C11, "C12": check_C12, "C08": check_C08, "C09": check_C09, "C10": check_C10, "C05": check_C05, "C15": check_C15, "C14": check_C14, "C16": check_C16, "C20": check_C20}
+CHECKS = {"C01": check_C01, "C02": check_C02, "C03": check_C03, "C04": check_C04, "C13": check_C13, "C06": check_C06, "C07": check_C07, "C11": check_C11, "C12": check_C12, "C08": check_C08, "C09": check_C09, "C10": check_C10, "C05": check_C05, "C15": check_C15, "C14": check_C14, "C16": check_C16, "C20": check_C20, "C17": check_C17}
 
 HOOK_COMMITS = []
 NOT_YET = {}
@@ -554,6 +637,10 @@ LEVELS = {
             "technique": "TLC-enumerated behaviour corpora (MC_elem incl. FMA, MC_linalg, MC_trans, MC_iter, MC_addr) replayed under every engine x build-tag configuration against one Level-1 result",
             "text": "bounded exhaustive model checking: the configuration is a parameter that appears in no expected value of the specification, so each engine/build must reproduce the same specified result; 8 configurations x 5 corpora",
             "note": "bounded as the underlying families; three builds are compiled from /repo's working tree per run"},
+    "C17": {"ref": "DESIGN.md 4 C17",
+            "technique": "TLC evaluates the operation terms itself over the integers (Interp.tla, MC_interp); replay for every element type; measured function coverage of the generated sources",
+            "text": "bounded exhaustive model checking: one integer interpretation of every operation family and kernel variant, computed by TLC, must be delivered by every element type that can represent it; exhaustiveness over the generated kernels is measured as function coverage (go build -cover) and written to the evidence",
+            "note": "palette of small positive integers exactly representable in all numeric types; bounded shapes"},
     "C01": {"ref": "DESIGN.md 4 C01",
             "technique": "TLC-enumerated behaviours of the TLA+ tensor machine (MC_addr) replayed on the real library",
             "text": "bounded exhaustive model checking: TLC enumerates every shape/constructor/layout in bounds and the complete coordinate->cell table of each; every table entry is executed (At and SetAt) on the real tensor for every element type, with a full snapshot of all storage around each write",
